@@ -5,7 +5,7 @@ use crate::ops_basic::matcher_for;
 use crate::util::*;
 use std::collections::HashMap;
 use tower_lsp::lsp_types::{CodeAction, Position, TextEdit, Url};
-use version_lsp::lsp::code_action::{PackageIndex, generate_bump_code_actions, generate_bump_code_actions_with_sha};
+use version_lsp::lsp::code_action::{PackageIndex, generate_bump_code_actions, generate_bump_code_actions_with_sha, locate_version_in_token};
 use version_lsp::parser::traits::Parser;
 use version_lsp::parser::types::{ExtraInfo, PackageInfo, RegistryType};
 use version_lsp::parser::*;
@@ -83,11 +83,23 @@ fn make_cache(rt: RegistryType, names: &[String], versions: &[String], latest_ta
 }
 
 fn run_actions(cache: &Cache, pkgs: &[PackageInfo], line: u32, ch: u32, tags: ScriptedTags) -> (String, Vec<CodeAction>, Vec<String>) {
+    run_actions_in(cache, pkgs, None, line, ch, tags)
+}
+
+/// the steps of Backend::code_action after the document lookup; with the document text, packages are first pointed at
+/// their version text (locate_version_in_token), as the handler does
+fn run_actions_in(cache: &Cache, pkgs0: &[PackageInfo], content: Option<&str>, line: u32, ch: u32, tags: ScriptedTags) -> (String, Vec<CodeAction>, Vec<String>) {
+    let located: Vec<PackageInfo>;
+    let pkgs: &[PackageInfo] = match content {
+        Some(c) => { located = pkgs0.iter().filter_map(|p| locate_version_in_token(p, c)).collect(); &located }
+        None => pkgs0,
+    };
     let index = PackageIndex::new(pkgs);
     let uri = Url::parse("file:///w/doc").unwrap();
     let found = index.find_at_position(Position { line, character: ch });
     let Some(p) = found else { return ("-".into(), vec![], vec![]) };
-    let idx = pkgs.iter().position(|q| std::ptr::eq(q, p)).unwrap();
+    // index in the ORIGINAL list (located packages keep name, version and line)
+    let idx = pkgs0.iter().position(|q| q.name == p.name && q.version == p.version && q.line == p.line && q.end_offset == p.end_offset).unwrap();
     let actions = if p.registry_type == RegistryType::GitHubActions && p.commit_hash.is_some() {
         let rt = tokio::runtime::Builder::new_current_thread().enable_all().build().unwrap();
         rt.block_on(generate_bump_code_actions_with_sha(cache, p, &uri, &tags))
@@ -173,6 +185,20 @@ pub fn dispatch(op: &str, f: &[String]) -> Option<String> {
         }
         // ca.doc <eco> <content> <line> <ch> <latestTag|-> <nver> v* <ntags> (tag sha|ERR)*
         //  -> parsed packages ; found ; per action: title|range|newText|reparsed packages (or EDIT-INVALID)
+        "ca.locate" => {
+            // content, version, hash ("-" or S<hash>), start, end, line, column
+            let p = PackageInfo {
+                name: "x".into(), version: f[1].clone(),
+                commit_hash: if f[2] == "-" { None } else { Some(f[2][1..].to_string()) },
+                registry_type: RegistryType::Npm,
+                start_offset: f[3].parse().unwrap(), end_offset: f[4].parse().unwrap(), line: f[5].parse().unwrap(), column: f[6].parse().unwrap(),
+                extra_info: None,
+            };
+            Some(match locate_version_in_token(&p, &f[0]) {
+                None => "none".into(),
+                Some(q) => format!("{} {} {} {} {}", q.start_offset, q.end_offset, q.line, q.column, hex(&q.version)),
+            })
+        }
         "ca.doc" => {
             let m = matcher_for(&f[0]);
             let rt = m.registry_type();
@@ -186,7 +212,7 @@ pub fn dispatch(op: &str, f: &[String]) -> Option<String> {
             let pkgs = parser.parse(content).unwrap_or_default();
             let names: Vec<String> = { let mut n: Vec<String> = pkgs.iter().map(|p| p.name.clone()).collect(); n.sort(); n.dedup(); n };
             let (_dir, cache) = make_cache(rt, &names, &versions, &latest_tag);
-            let (idx, actions, _calls) = run_actions(&cache, &pkgs, line, ch, tags);
+            let (idx, actions, _calls) = run_actions_in(&cache, &pkgs, Some(content), line, ch, tags);
             let plist = |ps: &[PackageInfo]| ps.iter().map(|p| format!("{}={}={}", hex(&p.name), hex(&p.version), opt(p.commit_hash.clone()))).collect::<Vec<_>>().join(";");
             let mut out = format!("{} # {} #", plist(&pkgs), idx);
             for a in &actions {
